@@ -216,9 +216,10 @@ Proof. reflexivity. Qed.
 Print Assumptions C19_deterministic.
 
 (* ----------------------------------------------------------------- CLI -- *)
-(* F14a: an invalid input with an existing output path leaves the path truncated. *)
+(* F14a: on the pinned code (out-file opened while the arguments are parsed) an invalid
+   input with an existing output path leaves the path truncated. *)
 Theorem C19_cli_atomic_refuted :
-  exists i before, cli_valid i = false /\ out_file (cli_run i (Some before)) <> Some before.
+  exists i before, cli_valid i = false /\ out_file (cli_run true i (Some before)) <> Some before.
 Proof. exists InSyntaxError, (S "# precious"). split; [reflexivity|vm_compute; discriminate]. Qed.
 Print Assumptions C19_cli_atomic_refuted.
 
@@ -226,17 +227,25 @@ Print Assumptions C19_cli_atomic_refuted.
    output path untouched (argparse opens in-file first); every other invalid input leaves it empty. *)
 Theorem C19_cli_atomic_partial :
   forall i before, cli_valid i = false ->
-  (exists n, exit_code (cli_run i before) = Some n /\ n <> 0%N) /\
-  (i = InUnreadable -> out_file (cli_run i before) = before) /\
-  (i <> InUnreadable -> out_file (cli_run i before) = Some []).
+  (exists n, exit_code (cli_run true i before) = Some n /\ n <> 0%N) /\
+  (i = InUnreadable -> out_file (cli_run true i before) = before) /\
+  (i <> InUnreadable -> out_file (cli_run true i before) = Some []).
 Proof.
-  intros i before H. split; [exact (cli_invalid_exit i before H)|]. split.
-  - intros ->. exact (cli_unreadable_intact before).
+  intros i before H. split; [exact (cli_invalid_exit true i before H)|]. split.
+  - intros ->. exact (cli_unreadable_intact true before).
   - exact (cli_truncates i before H).
 Qed.
 Print Assumptions C19_cli_atomic_partial.
 
-Theorem C19_cli_valid_writes : forall code before, cli_run (InDoc code) before = CliState (Some code) (Some 0%N).
+(* With the output opened on the first write (proposed fix F14a) the clause holds for
+   every invalid input and every prior content of the output path. *)
+Theorem C19_cli_atomic_lazy :
+  forall i before, cli_valid i = false ->
+  out_file (cli_run false i before) = before /\ exists n, exit_code (cli_run false i before) = Some n /\ n <> 0%N.
+Proof. intros i before H. split; [exact (cli_lazy_intact i before H)|exact (cli_invalid_exit false i before H)]. Qed.
+Print Assumptions C19_cli_atomic_lazy.
+
+Theorem C19_cli_valid_writes : forall eager code before, cli_run eager (InDoc code) before = CliState (Some code) (Some 0%N).
 Proof. exact cli_valid_writes. Qed.
 Print Assumptions C19_cli_valid_writes.
 
@@ -249,7 +258,8 @@ Theorem C19_tables :
   singularize_rules = [((S "(?i)(quiz)zes$"), (S "\1")); ((S "(?i)(matr)ices$"), (S "\1ix")); ((S "(?i)(vert|ind)ices$"), (S "\1ex")); ((S "(?i)^(ox)en"), (S "\1")); ((S "(?i)(alias|status)es$"), (S "\1")); ((S "(?i)([octop|vir])i$"), (S "\1us")); ((S "(?i)(cris|ax|test)es$"), (S "\1is")); ((S "(?i)(shoe)s$"), (S "\1")); ((S "(?i)(o)es$"), (S "\1")); ((S "(?i)(bus)es$"), (S "\1")); ((S "(?i)([m|l])ice$"), (S "\1ouse")); ((S "(?i)(x|ch|ss|sh)es$"), (S "\1")); ((S "(?i)(m)ovies$"), (S "\1ovie")); ((S "(?i)(s)eries$"), (S "\1eries")); ((S "(?i)([^aeiouy]|qu)ies$"), (S "\1y")); ((S "(?i)([lr])ves$"), (S "\1f")); ((S "(?i)(tive)s$"), (S "\1")); ((S "(?i)(hive)s$"), (S "\1")); ((S "(?i)([^f])ves$"), (S "\1fe")); ((S "(?i)(^analy)ses$"), (S "\1sis")); ((S "(?i)(^analysis)$"), (S "\1")); ((S "(?i)((a)naly|(b)a|(d)iagno|(p)arenthe|(p)rogno|(s)ynop|(t)he)ses$"), (S "\1\2sis")); ((S "(?i)(^data)$"), (S "\1")); ((S "(?i)([ti])a$"), (S "\1um")); ((S "(?i)(n)ews$"), (S "\1ews")); ((S "(?i)s$"), (S ""))] /\
   singularize_uncountable = [(S "equipment"); (S "information"); (S "rice"); (S "money"); (S "species"); (S "series"); (S "fish"); (S "sheep"); (S "sms")] /\
   singularize_irregular = [((S "people"), (S "person")); ((S "men"), (S "man")); ((S "children"), (S "child")); ((S "sexes"), (S "sex")); ((S "moves"), (S "move"))] /\
-  (forall a, In a [S "from_dict"; S "to_dict"; S "from_json"; S "to_json"; S "from_list"; S "list_to_json"] -> In a jsonwizard_attrs).
+  (forall a, In a [S "from_dict"; S "to_dict"; S "from_json"; S "to_json"; S "from_list"; S "list_to_json"] -> In a jsonwizard_attrs) /\
+  cli_output_opened_at_parse = true.
 Proof.
   repeat split; try reflexivity.
   intros a Ha. cbn in Ha. repeat (destruct Ha as [<-|Ha]; [cbn; tauto|]). destruct Ha.
